@@ -20,12 +20,14 @@ BigAllInSync(p, id) == p.big_contiguous /\ \A i \in 1..Len(p.big_status) : p.big
 Consume ==
   /\ l <= Len(Trace) /\ l' = l + 1
   /\ LET e == Trace[l] IN
+     \* a mode switch that reports an error (its write of sync_recover failed) leaves the served mode what it was
+     LET b10 == IF e.ev = "SwitchMode" /\ e.err /\ e.mode # e.mode_before THEN {<<tr, "FailedSwitchKeepsMode", l>>} ELSE {} IN
      IF e.ev = "reset" THEN tr' = e.beh /\ prev' = e /\ used' = {e.sid} /\ bad' = bad
-     ELSE IF e.mode # "DR_AUTO_SYNC" THEN tr' = tr /\ prev' = [prev EXCEPT !.regions = e.regions] /\ used' = used /\ bad' = bad   \* majority mode: no dr state is served
+     ELSE IF e.mode # "DR_AUTO_SYNC" THEN tr' = tr /\ prev' = [prev EXCEPT !.regions = e.regions] /\ used' = used /\ bad' = bad \cup b10   \* majority mode: no dr state is served
      ELSE
        LET changed == e.state # prev.state \/ e.sid # prev.sid
            isTick == e.ev = "Tick"
-           failedPersist == isTick /\ e.fail /\ e.writes >= 1
+           failedPersist == (isTick \/ e.ev = "SwitchMode") /\ e.fail /\ e.writes >= 1
            b1 == IF changed /\ (e.sid \in used) THEN {"FreshStateId"} ELSE {}
            b2 == IF changed /\ e.ev \notin {"Tick", "SwitchMode"} THEN {"ChangedWithoutTick"} ELSE {}
            \* the store counts are those of the moment of the tick (they are the same in prev and e for a Tick event)
@@ -40,7 +42,7 @@ Consume ==
            b8 == IF changed /\ e.offered_sid # e.sid THEN {"OfferedBeforeServed"} ELSE {}
            b9 == IF failedPersist /\ e.writes = 1 /\ changed THEN {"FailedPersistKeepsServed"} ELSE {}
        IN tr' = tr /\ prev' = e /\ used' = used \cup {e.sid}
-          /\ bad' = bad \cup {<<tr, c, l>> : c \in b1 \cup b2 \cup b3 \cup b4 \cup b5 \cup b6 \cup b7 \cup b8 \cup b9}
+          /\ bad' = bad \cup {<<tr, c, l>> : c \in b1 \cup b2 \cup b3 \cup b4 \cup b5 \cup b6 \cup b7 \cup b8 \cup b9} \cup b10
 Spec == Init /\ [][Consume]_vars
 HW == IF l > TLCGet(1) THEN TLCSet(1, l) /\ TLCSet(2, bad) ELSE TRUE
 AllConsumed == PrintT(<<"HW", TLCGet(1)>>) /\ PrintT(<<"BAD", TLCGet(2)>>) /\ TLCGet(1) = Len(Trace) + 1
